@@ -20,13 +20,23 @@ type Obs struct {
 	Trace    string `json:"trace,omitempty"`
 	Msg      string `json:"msg,omitempty"`
 	PanicKey string `json:"panic_key,omitempty"`
+	Pre      string `json:"pre,omitempty"` // two-step family: json_encode of the receiver after the first step
 }
 
 func caseSrc(c *Case, at atoms, i int, bare bool) string {
 	var sb strings.Builder
-	fmt.Fprintf(&sb, "$r = %s;\necho \"\\n@@B%d\\n\";\n", lit(c.Recv), i)
+	recv := c.Recv
+	if c.Pre != "" {
+		recv = c.Recv0
+	}
+	fmt.Fprintf(&sb, "$r = %s;\necho \"\\n@@B%d\\n\";\n", lit(recv), i)
 	call := callSrc(c, at, false)
-	body := "$v = " + call + ";\necho \"\\n@@V\", json_encode($v);\nif (is_string($v)) { echo \"\\n@@H\", bin2hex($v); }\n"
+	pre := ""
+	if c.Pre != "" {
+		// first step, then the receiver as it stands (P) and the start of the callback trace (C)
+		pre = preSrc(c.Pre) + "\necho \"\\n@@P\", json_encode($r), \"\\n@@C\";\n"
+	}
+	body := pre + "$v = " + call + ";\necho \"\\n@@V\", json_encode($v);\nif (is_string($v)) { echo \"\\n@@H\", bin2hex($v); }\n"
 	if bare {
 		sb.WriteString(body)
 	} else {
@@ -75,6 +85,10 @@ func parseSection(out string, i int) (Obs, bool) {
 		case 'A':
 			seenA = true
 			o.After = p[1:]
+		case 'P':
+			o.Pre = p[1:]
+		case 'C':
+			o.Trace = p[1:]
 		default:
 			return Obs{}, false
 		}
@@ -218,6 +232,11 @@ func compare(c *Case, e *Exp, o *Obs) string {
 		return "result"
 	}
 	var cl []string
+	if c.Pre != "" {
+		if p, ok := canonOf(o.Pre); !ok || p != recvCanon {
+			return "first-step"
+		}
+	}
 	if e.HasTrace && !traceOK(e, o.Trace) {
 		cl = append(cl, "callback-args")
 	}
@@ -263,6 +282,7 @@ func expect(c *Case, at atoms) Exp {
 	if c.Fam == "str" {
 		return expectStr(c, at)
 	}
+	// "arr2": c.Recv is the model's receiver after the first step
 	return expectArr(c, at)
 }
 
@@ -298,6 +318,9 @@ func describeObs(o *Obs) string {
 	switch o.Kind {
 	case "value":
 		s := "result=" + o.Res + " after=" + o.After
+		if o.Pre != "" {
+			s = "(after first step " + o.Pre + ") " + s
+		}
 		if o.Trace != "" {
 			s += " callback calls=" + strings.TrimSpace(o.Trace)
 		}
